@@ -28,6 +28,17 @@ THE SOFTWARE.
 """
 
 
+def _map_power_right_assoc(mapper, expr, enclosing_prec, *args, **kwargs):
+    # '**' associates to the right in both Python and Fortran, so a power in
+    # base position needs parentheses: (a**b)**c is not a**b**c.
+    from pymbolic.mapper.stringifier import PREC_POWER
+    return mapper.parenthesize_if_needed(
+            mapper.format("%s**%s",
+                mapper.rec(expr.base, PREC_CALL, *args, **kwargs),
+                mapper.rec(expr.exponent, PREC_POWER, *args, **kwargs)),
+            enclosing_prec, PREC_POWER)
+
+
 # {{{ fortran
 
 class FortranExpressionMapper(StringifyMapper):
@@ -106,6 +117,9 @@ class FortranExpressionMapper(StringifyMapper):
         return self.parenthesize_if_needed(
                 self.join_rec(" * ", expr.children, PREC_PRODUCT, *args, **kwargs),
                 enclosing_prec, PREC_PRODUCT)
+
+    def map_power(self, expr, enclosing_prec, *args, **kwargs):
+        return _map_power_right_assoc(self, expr, enclosing_prec, *args, **kwargs)
 
     def map_logical_not(self, expr, enclosing_prec):
         from pymbolic.mapper.stringifier import PREC_UNARY
@@ -222,6 +236,9 @@ class PythonExpressionMapper(StringifyMapper):
         return self.map_generic_call(
                 expr.function, expr.parameters,
                 expr.kw_parameters)
+
+    def map_power(self, expr, enclosing_prec, *args, **kwargs):
+        return _map_power_right_assoc(self, expr, enclosing_prec, *args, **kwargs)
 
     def map_if(self, expr, enclosing_prec):
         from dagrt.expression import PREC_IFTHENELSE
